@@ -185,10 +185,11 @@ def _style_declarations(base):
     """
     Recursively find all CSSStyleDeclarations.
     """
+    if hasattr(base, 'style'):
+        # the declarations of an @page rule come before its margin boxes
+        yield base.style
     for rule in getattr(base, 'cssRules', ()):
         yield from _style_declarations(rule)
-    if hasattr(base, 'style'):
-        yield base.style
 
 
 def getUrls(sheet):
